@@ -292,12 +292,15 @@ impl Exec {
         let mut diff = vec![];
         let mut time = vec![];
         let mut btx = vec![];
+        let mut hs: Vec<u64> = vec![];
         for b in 1..=nb {
             let s = self.uni.block_specs.get(&b).unwrap_or_else(|| panic!("block ids must be contiguous, missing {b}"));
             par.push(json!(s.parent));
             diff.push(json!(s.diff as u64));
             time.push(json!(s.time));
             btx.push(json!(s.txs));
+            // heights (parents have smaller ids); redundant with `par`, checked by the specification
+            hs.push(if s.parent == 0 || s.parent > hs.len() { 0 } else { hs[s.parent - 1] + 1 });
         }
         let mut tin = vec![];
         let mut tout = vec![];
@@ -315,7 +318,7 @@ impl Exec {
                     "fees": fees_to_json(&fees_from_json(&self.cfg.fees))},
             "book": self.cfg.book,
             "naddr": self.uni.addr_strings.len(),
-            "uni": {"par": par, "diff": diff, "time": time, "btx": btx, "tin": tin, "tout": tout, "vsz": vsz},
+            "uni": {"par": par, "diff": diff, "time": time, "btx": btx, "tin": tin, "tout": tout, "vsz": vsz, "h": hs},
         })
     }
 
